@@ -93,6 +93,30 @@ func c06Type(r *gen.Rand) *schema.Struct {
 		func() *schema.Type { return schema.MapOf(schema.Scalar(schema.I32), schema.Scalar(schema.String)) },
 		func() *schema.Type { return schema.StructOf(gen.Zoo(&zoo.Wide{}), r.Bool()) },
 	}
+	// structs of fixed-size scalars only, plus an unknown-field holder: their only
+	// pointer-bearing part is the holder the decoder fills
+	scalarHolder := func() *schema.Struct {
+		sh := &schema.Struct{UnknownIdx: -1, HasUnknown: true}
+		ks := []schema.Kind{schema.Bool, schema.I8, schema.I16, schema.I32, schema.I64, schema.Double}
+		m := 1 + r.Intn(3)
+		for i := 0; i < m; i++ {
+			sh.Fields = append(sh.Fields, &schema.Field{ID: uint16(1 + i), Req: schema.Req(r.Intn(2)), T: schema.Scalar(ks[r.Intn(len(ks))])})
+		}
+		sh.GoOrder = r.Perm(m + 1)
+		for i, o := range sh.GoOrder {
+			if o == m {
+				sh.GoOrder[i] = schema.UnknownMarker
+			}
+		}
+		sh.Build()
+		return sh
+	}
+	kinds = append(kinds,
+		func() *schema.Type { return schema.StructOf(scalarHolder(), true) },
+		func() *schema.Type { return schema.ListOf(schema.StructOf(scalarHolder(), r.Bool())) },
+		func() *schema.Type { return schema.MapOf(schema.Scalar(schema.I32), schema.StructOf(scalarHolder(), r.Bool())) },
+		func() *schema.Type { return schema.StructOf(scalarHolder(), false) },
+	)
 	n := 3 + r.Intn(8)
 	for i := 0; i < n; i++ {
 		t := kinds[r.Intn(len(kinds))]()
@@ -115,6 +139,7 @@ func c06Type(r *gen.Rand) *schema.Struct {
 func c06Value(r *gen.Rand, s *schema.Struct) reflect.Value {
 	vc := gen.DefaultValCfg()
 	vc.Budget = 150
+	vc.HolderAlways = r.Bool() // unknown fields retained at every level that has a holder
 	if r.Bool() {
 		vc.ForceStrLen = c06Lens[r.Intn(len(c06Lens))]
 	}
